@@ -121,6 +121,8 @@ package sourcerunner
 //@   ensures old(r.loopDone) != nil ==> called("recv:loopDone")
 //@   ensures ncalled("go") == 1
 
+// (A barrier is taken between reads, never while the records of one read are being queued - loop 1:
+// the position reported for it would cover records that are queued only after the barrier.)
 //@ func SourceRunner.processEvents
 //@   property C04 C16 C11
 //@   nosafety
@@ -129,7 +131,7 @@ package sourcerunner
 //@   atcall sendOperatorEvent: false
 //@   atcall broadcastEvent: false
 //@   atcall routeEvent: false
-//@   atcall recv:checkpointBarrier@1: false
+//@   atcall recv:checkpointBarrier: !inloop(1)
 
 // The per-operator sender hands a full batch to its worker SYNCHRONOUSLY (unbuffered channel): a
 // batch still waiting in a buffer could be overtaken by the time-out flush of the following batch
